@@ -107,10 +107,11 @@ static Bytes build_pass(const PassDef &pd, size_t base) {
 }
 
 // program encoding in Fault.a (OVR_SILFPROG): [np, nsub, numUser, ijust_is_np, rtl, then per pass: maxloop, nrules, per rule: len, match[len], conslen, cons[conslen], alen, action[alen]]
-struct SynthHdr { unsigned flags = 0; std::vector<unsigned> just; };   // Silf flags byte (bit 0: line-end contextuals), justification levels (4 attribute numbers each)
+struct SynthHdr { unsigned flags = 0; std::vector<unsigned> just; unsigned nlb = 0; };   // nlb: the first nlb passes are line-break passes (iSubst = nlb)   // Silf flags byte (bit 0: line-end contextuals), justification levels (4 attribute numbers each)
 static void encode_prog(const std::vector<PassDef> &passes, unsigned nsub, unsigned numUser, bool ijust_np, bool rtl, const SynthHdr &h, std::vector<i64> &a) {
     a = {i64(passes.size()), i64(nsub), i64(numUser), ijust_np ? 1 : 0, rtl ? 1 : 0, i64(h.flags), i64(h.just.size() / 4)};
     for (unsigned v : h.just) a.push_back(v);
+    a.push_back(h.nlb);
     for (auto &pd : passes) { a.push_back(pd.maxloop); a.push_back(i64(pd.rules.size()));
         for (auto &rd : pd.rules) { a.push_back(i64(rd.match.size())); for (unsigned g : rd.match) a.push_back(g); a.push_back(i64(rd.constraint.size())); for (u8 c : rd.constraint) a.push_back(c); a.push_back(i64(rd.action.size())); for (u8 c : rd.action) a.push_back(c); } }
 }
@@ -119,6 +120,7 @@ static bool decode_prog(const std::vector<i64> &a, std::vector<PassDef> &passes,
     i64 np, v; if (!get(np) || np < 1 || np > 16) return false; if (!get(v)) return false; nsub = unsigned(v < 0 ? 0 : v > np ? np : v); if (!get(v)) return false; numUser = unsigned(v & 7);
     if (!get(v)) return false; ijust_np = v != 0; if (!get(v)) return false; rtl = v != 0;
     if (!get(v)) return false; h.flags = unsigned(v & 1); i64 nj; if (!get(nj) || nj < 0 || nj > 3) return false; for (i64 q = 0; q < 4 * nj; ++q) { if (!get(v)) return false; h.just.push_back(unsigned(v & 0xFF)); }
+    if (!get(v)) return false; h.nlb = unsigned(v < 0 ? 0 : v); if (h.nlb > nsub) h.nlb = nsub;
     for (i64 p = 0; p < np; ++p) { PassDef pd; i64 nr; if (!get(v)) return false; pd.maxloop = unsigned(v & 0xFF); if (!get(nr) || nr < 1 || nr > 32) return false;
         for (i64 k = 0; k < nr; ++k) { RuleDef rd; i64 len; if (!get(len) || len < 1 || len > 8) return false; for (i64 q = 0; q < len; ++q) { if (!get(v)) return false; rd.match.push_back(1 + unsigned(u64(v - 1) % ALPHA)); }
             i64 cl; if (!get(cl) || cl < 0 || cl > 64) return false; for (i64 q = 0; q < cl; ++q) { if (!get(v)) return false; rd.constraint.push_back(u8(v)); }
@@ -145,7 +147,7 @@ static void gen_prog(u64 seed, std::vector<i64> &out) {
         }
         passes.push_back(pd);
     }
-    SynthHdr h; if (r.chance(1, 3)) h.flags = 1; if (r.chance(1, 3)) { unsigned nj = 1 + r.below(2); for (unsigned q = 0; q < 4 * nj; ++q) h.just.push_back(r.below(6)); }
+    SynthHdr h; if (r.chance(1, 3)) h.flags = 1; if (r.chance(1, 4)) h.nlb = r.below(nsub + 1); if (r.chance(1, 3)) { unsigned nj = 1 + r.below(2); for (unsigned q = 0; q < 4 * nj; ++q) h.just.push_back(r.below(6)); }
     encode_prog(passes, nsub, numUser, r.chance(1, 2), r.chance(1, 4), h, out);
 }
 
@@ -160,7 +162,7 @@ void silf_override(Store &st, const Fault &f) {
     if (getenv("SYN_DUMP")) for (unsigned i = 0; i < np; ++i) { fprintf(stderr, "pass %u (%s) maxloop %u\n", i, i < nsub ? "subst" : "pos", passes[i].maxloop); for (auto &rd : passes[i].rules) { fprintf(stderr, "  rule match"); for (unsigned g : rd.match) fprintf(stderr, " g%u", g); fprintf(stderr, " action:"); for (u8 b : rd.action) fprintf(stderr, " %d", int(b)); fprintf(stderr, "%s\n", rd.constraint.empty() ? "" : " +constraint"); } }
     Bytes s;
     w16(s, nglyphs - 1); w16(s, 0); w16(s, 0);
-    w8(s, np); w8(s, 0); w8(s, nsub); w8(s, ijust_np ? np : nsub); w8(s, 0xFF); w8(s, hdr.flags); w8(s, 0); w8(s, 0);
+    w8(s, np); w8(s, hdr.nlb); w8(s, nsub); w8(s, ijust_np ? np : nsub); w8(s, 0xFF); w8(s, hdr.flags); w8(s, 0); w8(s, 0);
     // the four glyph-attribute indices (pseudo, break weight, directionality, mirroring) are taken from the font's own Silf
     // table, so that pseudo-glyph and mirror attributes keep naming real glyphs (C03 gid clause stays applicable)
     unsigned ga[4] = {0, 0, 0, 0};
